@@ -34,11 +34,12 @@ const (
 var kindName = []string{"add", "rt", "conc", "count", "values"}
 
 type program struct {
-	n      uint32
-	phase  uint64 // start instant = base + phase
-	pre    int    // sequential pre-fill adds
-	preGap uint64 // clock advance after the pre-fill
-	tasks  [][]int
+	onePreempt bool // systematic exploration with one preemption even in the thorough tier
+	n          uint32
+	phase      uint64 // start instant = base + phase
+	pre        int    // sequential pre-fill adds
+	preGap     uint64 // clock advance after the pre-fill
+	tasks      [][]int
 }
 
 type op struct {
@@ -323,8 +324,8 @@ func basePrograms() []program {
 			{{kAdd}, {kCount}, {kCount}},
 			{{kAdd, kCount}, {kAdd}},
 		} {
-			ps = append(ps, program{n: n, phase: 9, pre: 1, preGap: 0, tasks: tasks})
-			ps = append(ps, program{n: n, phase: 9, pre: 1, preGap: iv, tasks: tasks})
+			ps = append(ps, program{n: n, phase: 9, pre: 1, preGap: 0, tasks: tasks, onePreempt: true})
+			ps = append(ps, program{n: n, phase: 9, pre: 1, preGap: iv, tasks: tasks, onePreempt: true})
 		}
 	}
 	return ps
@@ -336,7 +337,7 @@ func TestSystematicSchedules(t *testing.T) {
 	if hx.Thorough() {
 		maxPre = 2
 	}
-	total := 0
+	total, cut := 0, 0
 	shard, nshards := 0, 1
 	if v, err := strconv.Atoi(os.Getenv("VERIF_NSHARDS")); err == nil && v > 1 {
 		nshards = v
@@ -346,7 +347,12 @@ func TestSystematicSchedules(t *testing.T) {
 		if pi%nshards != shard {
 			continue // the enumeration is split over processes by program index
 		}
-		ex := &sched.Explorer{MaxPreempt: maxPre}
+		mp := maxPre
+		if p.onePreempt { // the boundary-crossing programs are explored with one preemption in both tiers
+			mp = 1
+		}
+		ex := &sched.Explorer{MaxPreempt: mp}
+		perProgram := 0
 		for {
 			var verdict string
 			var overlap bool
@@ -359,13 +365,24 @@ func TestSystematicSchedules(t *testing.T) {
 				}
 			})
 			total++
+			perProgram++
 			if verdict != "" {
 				t.Fatalf("program#%d schedule %v: %s", pi, ex.Trace(), verdict)
 			}
 			if !ex.Next() {
 				break
 			}
+			if perProgram >= 150000 { // bound the thorough tier: the enumeration of this program is cut (in enumeration order, deterministic)
+				cut++
+				break
+			}
 		}
+	}
+	if cut > 0 {
+		hx.Plain(t, func(c *hx.Case) {
+			c.Op("%d program(s) cut at 150000 schedules", cut)
+			c.Count("systematic_programs_cut_at_150000_schedules", int64(cut))
+		})
 	}
 	t.Logf("systematic: %d schedules of %d programs with <= %d preemptions (exhaustive within the bound)", total, len(progs), maxPre)
 }
